@@ -182,7 +182,7 @@ PROP = Prop(
           "NaN locus, complements sum to 1 (1e-12), range [0,1], CI centre/half-width against "
           "statistics.NormalDist (1e-9 relative), nesting, mirroring (1e-12), aliases. Non-trivial "
           "= a zero and a non-zero denominator in the same array, or a float-typed matrix."),
-    clauses=[Clause("algebra", check, strategy=_cases(), quick=1200, thorough=6000, quick_shards=4,
+    clauses=[Clause("algebra", check, strategy=_cases(), quick=1200, thorough=24000, quick_shards=4,
                     min_nontrivial=200, doc="definitions, complements, NaN locus, CIs")],
     assumptions=["normal quantile reference: statistics.NormalDist (stdlib)"],
 )
